@@ -38,6 +38,9 @@ def run(ctx):
     ctx.rule("R20-6", "the word-start scanner tracks quotes like the tokenizer: it remembers which quote character opened "
                       "(assigned together with the open flag) and closes only under equality with that character; a "
                       "toggle on any quote character makes the other quote inside a name end the quoted region")
+    ctx.rule("R20-7", "after `cd` only directories are offered whatever has been typed of the argument: the test that selects "
+                      "the directory-only completer is a pure prefix test on the line (`^ *cd +`, nothing constrained after "
+                      "the separator)")
     ctx.rule("R20-2", "inside an open quote q, wrap_sep_string(q, name) escapes every character special inside q")
     ctx.rule("R20-3", "candidates: entries whose name starts_with the typed prefix; non-directories skipped when "
                       "for_dir; result sorted; unquoted names go through escape_path, quoted ones through wrap_sep_string")
@@ -53,6 +56,7 @@ def run(ctx):
             n = ispace.rule(ctx, crate, "R20-5", ["completers::escaped_word_start"])
             ctx.floor("R20-5", crate, "index-space obligations", n, 2)
             quote_state_rule(ctx, crate)
+        cd_prefix_rule(ctx, crate)
     ctx.notes.append("completers exist only in the bin crate; the lib crate has no instance of these rules")
 
 
@@ -336,3 +340,36 @@ def quote_state_rule(ctx, crate):
                where=b.loc((other or closed or opened or [0])[0]),
                detail=None if ok else "inside an open quote the other quote character (an apostrophe in a double-quoted name) "
                "ends the quoted region for the word-start search: the next space splits the word being completed")
+
+
+def cd_prefix_rule(ctx, crate):
+    b = crate.fn("completers::for_cd")
+    if not ctx.require(b is not None, "R20-7", "R20-7|anchor", "completers::for_cd not found"):
+        return
+    ctx.analysed(b)
+    lit = None
+    for bb, t, c in b.calls():
+        if last_seg(c) in ("re_contains", "is_match", "new"):
+            for a in b.call_args(bb):
+                if const_str(a) is not None and "cd" in const_str(a):
+                    lit = const_str(a)
+    if not ctx.require(lit is not None, "R20-7", "R20-7|%s|pattern" % b.path, "the pattern of for_cd is not a literal", b.path):
+        return
+    sh = refacts.info(lit).get("shape") or {}
+    items = sh.get("of") if sh.get("k") == "concat" else []
+    ok = False
+    detail = "pattern %r" % lit
+    if items and items[0].get("k") == "look" and items[0].get("v") == "Start":
+        idx = [i for i, x in enumerate(items) if x.get("k") == "lit" and x.get("v") == "cd"]
+        if idx:
+            rest = items[idx[0] + 1:]
+            def blanks(x):
+                o = x.get("of", {})
+                return x.get("k") == "rep" and x.get("min", 0) >= 1 and (
+                    (o.get("k") == "lit" and o.get("v") == " ") or (o.get("k") == "class" and " " not in o.get("excl", " ")))
+            ok = len(rest) == 1 and blanks(rest[0])
+            if not ok:
+                detail = "pattern %r constrains the text after `cd `: for some arguments (a blank inside an open quote) the " \
+                         "generic completer takes over and offers plain files" % lit
+    ctx.ob("R20-7", b.path, "for_cd is the prefix test ^ *cd + with nothing after it", ok,
+           key="R20-7|%s|prefix-test" % b.path, crate=crate.kind, detail=None if ok else detail)
